@@ -399,6 +399,8 @@ class TabularRoundTrip(BoundedCheck):
         for name, p in programs(tier, seed, 1500 if tier == 'thorough' else 150, with_verbatim=True):
             yield {'kind': 'symbols', 'script': G.render_script(p)}
         yield {'kind': 'symbols', 'script': '```\nself.Q = 1\n```\nY = exp(X) + max(Z, 2)\n`self.R = 2`'}
+        # text fields are carried as they are (blanks at either end included)
+        yield {'kind': 'symbols', 'script': 'Y = X + 1   \nZ = Y\t\n```\n  self.Q = 1  \n```'}
 
     def check(self, case, res: BoundedResult):
         import fsic
